@@ -332,8 +332,12 @@ def run_sound_case(case):
             except Exception as e:
                 text2 = "<<StubIndexBuilder raised %s>>" % type(e).__name__
             ab2, pos2 = stub_positions(text2, own, truth)
+            pos2 = [p for p in pos2 if not (p["f"] == "fa" and p["pos"] in ("a", "return"))]      # (the same projection as above)
             key = lambda ps: sorted((p["f"], p["pos"], absmodel.canon(p["ann"])) for p in ps)  # noqa: E731
             ib_agrees = key(pos2) == key(positions) and td_key_counts(ab2) == td_key_counts(ab)
+            if not ib_agrees and os.environ.get("VERIF_DEBUG_IB"):
+                with open(os.environ["VERIF_DEBUG_IB"], "a") as fh:
+                    fh.write(json.dumps({"case": case, "cli": out.getvalue(), "ib": text2}) + "\n")
         for q in positions:
             q["defnone"] = q["pos"] == "b"          # the only parameters of the target module with a None default
         rec = {"tid": case["tid"], "ev": "Sound", "k": case["k"], "tight": case["rw"] == "NONE" and not case["flag"],
